@@ -695,6 +695,7 @@ def setPct (s : St) (caller p : Nat) : Option St := do
 def setFactors (s : St) (caller : Nat) (f : Factors) : Option St := do
   req (s.isAdmin caller)
   req (0 < f.minE ∧ 0 < f.minF)
+  req (0 < f.cE ∨ 0 < f.cF)   -- repair of finding F7: the divisor `cE + cF` of the weekly formula must not be zero
   let W ← s.week
   match s.b.cfg with
   | some cfg => do
